@@ -425,15 +425,12 @@ func c06(c *ctx) {
 			}
 		}
 	} else {
-		// every value of every dimension at least once per flavour (pairwise-ish), 72 cases per flavour
+		// every (encryption method, session id, flag) per flavour; clock offset, server name and method rotate
 		for _, f := range flavours {
 			for enc := byte(0); enc < 4; enc++ {
 				ss := sids()
 				for si, sid := range ss {
 					for ui, un := range []bool{false, true} {
-						if (si+ui+int(enc))%2 == 0 && si < 4 {
-							continue
-						}
 						k := int(enc)*7 + si*3 + ui
 						cases = append(cases, c06case{transport: f.tr, br: f.br, enc: enc, sid: sid, unordered: un, off: offs[k%len(offs)],
 							domain: domains[k%len(domains)], method: methods[(k/2)%len(methods)], uid: byp})
@@ -443,7 +440,7 @@ func c06(c *ctx) {
 		}
 	}
 	// random UIDs (the server side of AuthFirstPacket does not look at the user database)
-	extra := 40
+	extra := 80
 	if c.thorough() {
 		extra = 600
 	}
@@ -465,7 +462,7 @@ func c06(c *ctx) {
 		idx++
 	}
 	// through the whole dispatcher (bypass UID, served method)
-	nd := 24
+	nd := 40
 	if c.thorough() {
 		nd = 160
 	}
